@@ -1,4 +1,5 @@
 import ScrutModel.Lemmas.DiffC03iff
+import ScrutModel.Lemmas.Newline
 /-!
 # C02 — The diff accounts for every output line and every expectation exactly once
 
@@ -37,6 +38,32 @@ theorem C02_conservation (n m : Nat) (es : Nat → Exp) (mt : Nat → Nat → Bo
     exact (wf.good _ h).2
   · intro ls h
     exact wf.good _ h
+
+/-- **C02** (no index panic): every index the Rust loop dereferences is in range — inside the loop
+by its guard, and after the loop `expectations[expectation_index]` is only read when a multiline
+run is open, in which case the index is in range; all line and expectation indices stored in the
+result are in range. -/
+theorem C02_indices_in_range (n m : Nat) (es : Nat → Exp) (mt : Nat → Nat → Bool) :
+    (∀ s, (loop n m es mt 0 0 none []).2.2.1 = some s → (loop n m es mt 0 0 none []).1 < n) ∧
+    (loop n m es mt 0 0 none []).1 ≤ n ∧ (loop n m es mt 0 0 none []).2.1 ≤ m ∧
+    (∀ i ls, DL.matched i ls ∈ diff n m es mt → i < n ∧ ∀ l ∈ ls, l < m) ∧
+    (∀ i, DL.unmatched i ∈ diff n m es mt → i < n) := by
+  have hinv := loop_inv n m es mt 0 0 none [] (linv_init n m es mt)
+  have wf := diff_wf n m es mt
+  refine ⟨fun s hs => (hinv.open_ s hs).2.1, hinv.ei_le, hinv.li_le, ?_, ?_⟩
+  · intro i ls h
+    have := wf.good _ h
+    exact ⟨this.1, fun l hl => (this.2.2.1 l hl).1⟩
+  · intro i h
+    exact (wf.good _ h).1
+
+/-- **C02** (lines): the lines the comparison works on are exactly the output cut after every
+LF — they concatenate back to the output (with or without final newline, empty output included),
+each is non-empty and contains LF only as its last byte. -/
+theorem C02_lines_partition_output (bs : List UInt8) :
+    (Scrut.Newline.splitAtNewline bs).flatten = bs ∧
+    ∀ l ∈ Scrut.Newline.splitAtNewline bs, Scrut.Newline.IsLine l :=
+  ⟨Scrut.Newline.splitAtNewline_flatten bs, Scrut.Newline.splitAtNewline_isLine bs⟩
 
 /-! Non-vacuity: the doc-comment example of `src/diff.rs` (expectations `foo1`, `bar`, `baz`
 against `bla foo1 foo2 foo3 bar`) — all three entry kinds occur. -/
